@@ -31,6 +31,9 @@ class Runner {
   Runner(Src& src, cs::Ctx& c, const Options& o) : s(src), ctx(c), opt(o) {}
 
   void init(const std::vector<int>& policies = {-1}) {
+#if !ARDUINOJSON_USE_LONG_LONG
+    gen::clamp_int32() = true;
+#endif
     m.docs.resize(opt.ndocs);
     for (size_t d = 0; d < opt.ndocs; d++) {
       m.docs[d].root = Val::null();
@@ -961,6 +964,25 @@ class Runner {
       ht.form = 2;
       ht.handle = hi;
       set_hole(ht);
+    }
+    if (h.type == 2 && s.chance(1, 8)) {
+      // JsonObject::set() from a source that is no object (unbound handle, or a value of another
+      // kind viewed as one): returns false and leaves the target as it is. (JsonArray::set() of a
+      // null source empties the array and returns true; the property does not say which of the two
+      // is meant, so the array form is not generated.)
+      int vi = -1;
+      for (int i : live_handles(-1, 1)) vi = i;  // some JsonVariant handle, whatever it holds
+      const Val* vn = vi >= 0 ? find_id(m.docs[(size_t)m.handles[(size_t)vi].doc].root, m.handles[(size_t)vi].id) : nullptr;
+      bool use_variant = vn && vn->k != (h.type == 1 ? Val::Arr : Val::Obj) && s.coin();
+      note("h" + std::to_string(hi) + (h.type == 1 ? "(array)" : "(object)") + ".set(" + (use_variant ? "h" + std::to_string(vi) + " viewed as that kind" : "unbound source") + ")");
+      for (auto& w : worlds) {
+        bool r;
+        if (h.type == 1) r = w->handles[(size_t)hi].a.set(use_variant ? w->handles[(size_t)vi].v.as<JsonArrayConst>() : JsonArrayConst());
+        else r = w->handles[(size_t)hi].o.set(use_variant ? w->handles[(size_t)vi].v.as<JsonObjectConst>() : JsonObjectConst());
+        ret_check(r, false, "container set() from a null source returned true");
+      }
+      st.no_such_key_ops++;
+      return;
     }
     if (s.chance(1, 3)) {
       // JsonArray::set(JsonArrayConst) / JsonObject::set(JsonObjectConst) from a source of the same kind
